@@ -1345,3 +1345,84 @@ Proof.
 Qed.
 Example missing_return_hyps_sat : exists body, has F_NONE (modes_of (BCode body)) = true.
 Proof. exists half_return. reflexivity. Qed.
+
+(* ------------------------------------------------------------------ the option unreachable_error (C18) *)
+(* The option only adds 'Unreachable statement' diagnostics: what is raised without it is what
+   is raised with it, minus those. *)
+Definition not_unreachable (e : error) : bool :=
+  match e with ErrUnreachable => false | _ => true end.
+
+Lemma atom_diag_keep ret a : filter not_unreachable (atom_diag ret a) = atom_diag ret a.
+Proof. destruct a as [s|[] h| |], ret; reflexivity. Qed.
+
+Theorem diags_lint_mutual ret :
+  (forall b, diags false ret b = filter not_unreachable (diags true ret b)) /\
+  (forall ss m fc, diags_stmts false ret ss m fc = filter not_unreachable (diags_stmts true ret ss m fc)).
+Proof.
+  apply block_stmts_mutind.
+  - intros ss IH. simpl. apply IH.
+  - intros c t IHt e IHe. simpl. rewrite filter_app, IHt, IHe. reflexivity.
+  - intros c b IHb k. simpl. exact IHb.
+  - intros b IHb k h IHh. simpl. rewrite filter_app, IHb, IHh. reflexivity.
+  - intros b IHb. simpl. exact IHb.
+  - reflexivity.
+  - intros a r IH m fc. simpl. destruct (loop_exit_guard m fc); [reflexivity|].
+    rewrite filter_app, atom_diag_keep, IH. reflexivity.
+  - intros b IHb r IHr m fc. simpl. destruct (loop_exit_guard m fc); [reflexivity|].
+    rewrite filter_app, IHb, IHr. reflexivity.
+Qed.
+
+(* everything after the diagnostics does not look at the option *)
+Lemma elab_func_by_diags ue1 ue2 d ret body :
+  diags ue1 ret (BCode body) = [] -> diags ue2 ret (BCode body) = [] ->
+  elab_func ue1 d ret body = elab_func ue2 d ret body.
+Proof. intros D1 D2. unfold elab_func. rewrite D1, D2. reflexivity. Qed.
+
+(* (1) if the linting build accepts, the normal build accepts with the same checked body and
+   mode -- so the code generated from it is the same *)
+Theorem lint_only_rejects : forall d ret body ss m,
+  elab_func true d ret body = Accepted ss m -> elab_func false d ret body = Accepted ss m.
+Proof.
+  intros d ret body ss m E.
+  assert (DT : diags true ret (BCode body) = []).
+  { unfold elab_func in E. destruct (diags true ret (BCode body)); [reflexivity | discriminate E]. }
+  assert (DF : diags false ret (BCode body) = []).
+  { rewrite (proj1 (diags_lint_mutual ret)), DT. reflexivity. }
+  rewrite <- E. apply elab_func_by_diags; assumption.
+Qed.
+
+(* (2) the only verdict the option can add is 'Unreachable statement' *)
+Theorem lint_rejects_only_unreachable : forall d ret body v,
+  elab_func false d ret body = v ->
+  elab_func true d ret body = v \/ elab_func true d ret body = Rejected ErrUnreachable.
+Proof.
+  intros d ret body v E.
+  pose proof (proj1 (diags_lint_mutual ret) (BCode body)) as F.
+  destruct (diags true ret (BCode body)) as [|e l] eqn:DT.
+  - left. rewrite <- E. apply elab_func_by_diags; [exact DT | rewrite F; reflexivity].
+  - destruct e.
+    + right. unfold elab_func. rewrite DT. reflexivity.
+    + left. rewrite <- E. unfold elab_func. rewrite DT, F. reflexivity.
+    + left. rewrite <- E. unfold elab_func. rewrite DT, F. reflexivity.
+    + left. rewrite <- E. unfold elab_func. rewrite DT, F. reflexivity.
+Qed.
+
+(* (3) `analyse` has no access to the option at all; whatever the option, an accepted body is
+   what `analyse` returns for the source body, plus the implicit return when one is inserted *)
+Theorem analyse_independent_of_lint : forall ue d ret body ss m,
+  elab_func ue d ret body = Accepted ss m ->
+  exists ss0 m0, analyse (BCode body) = (BCode ss0, m0) /\
+    ((ss = ss0 /\ m = m0) \/
+     (ss = app_stmts ss0 (SAtom (AReturn false false) SNil) /\ m = func_fixup_modes m0)).
+Proof.
+  intros ue d ret body ss m E. apply elab_accepted_inv in E. cbv zeta in E.
+  exists (trunc_stmts body initial_mode initial_found_continue),
+         (modes_stmts body initial_mode initial_found_continue).
+  split; [apply analyse_code|].
+  destruct E as [_ [(_ & -> & ->)|(_ & _ & -> & ->)]]; [left | right]; split; reflexivity.
+Qed.
+
+(* both cases of (2) occur *)
+Example lint_same_verdict : elab_func false false RetValue max_body = elab_func true false RetValue max_body.
+Proof. reflexivity. Qed.
+
